@@ -27,12 +27,13 @@ CONFIG = {
 REQUIRED_CLASSES = {"quick": ["n1=n3", "n2=n3", "n1+n2=-1", "generic-triple", "purge", "empty-freq-list", "degenerate", "complex", ">=3-distinct-indices"],
                     "thorough": ["n1=n3", "n2=n3", "n1+n2=-1", "generic-triple", "purge", "empty-freq-list", "degenerate", "complex", ">=3-distinct-indices", "resonant-chain"]}
 TOL = 1e-8
+TOL_COND = 4e-8
 
 
 @st.composite
 def strategy_(draw, tier):
     mm = 4 if tier == "quick" else 5
-    mdl = draw(gen.any_model_st(max_modes=mm, beta_lo=0.1, beta_hi=100.0))
+    mdl = draw(gen.any_model_st(max_modes=mm, beta_lo=0.1, beta_hi=100.0, wide=True))
     N = M.n_modes(mdl["sites"])
     ix = st.integers(0, N - 1)
     comps = draw(st.lists(gen.chi_quad_st(N), min_size=1, max_size=2, unique=True))
@@ -105,6 +106,7 @@ def execute(case, ctx):
             return fail("%s threw: %s" % (run.sc.lines[ln - 1][:100], a and a.get("exc")), "exc:" + run.sc.lines[ln - 1].split()[0])
     nontrivial = False
     maxratio = 0.0
+    maxcond = 0.0
     for c, (i, j, k, l) in enumerate(case["comps"]):
         X = run.q(("X", c)); Xe = run.q(("Xe", c)); Y = run.q(("Y", c)); Ye = run.q(("Ye", c)); Z = run.q(("Z", c)); Ze = run.q(("Ze", c))
         if X["idx"] != [i, j, k, l]:
@@ -131,10 +133,15 @@ def execute(case, ctx):
             r, sc = ref.chi4(i, j, k, l, n1, n2, n3, return_scale=True)
             S = beta ** 3 * sc
             fl = chi_floor(beta, ref.N)
-            tol = TOL * (abs(r) + S) + fl
+            # two sound bounds, the smaller one applies: TOL of the crude scale beta^3 * sum |M| w, and TOL_COND*(1+beta) of the
+            # sum of the absolute values of the individual Lehmann contributions (merging poles closer than 1e-8 shifts a
+            # contribution by at most 1e-8*beta/pi of itself per denominator; observed rounding is below 1e-13 of that sum)
+            tol = min(TOL * (abs(r) + S), TOL_COND * (1.0 + beta) * ref.last_cond) + fl
             v = od[t]
             if S > 0:
                 maxratio = max(maxratio, abs(v - r) / (abs(r) + S))
+            if ref.last_cond > 0 and abs(v - r) > 1e-13:
+                maxcond = max(maxcond, abs(v - r) / ref.last_cond)
             if not abs(v - r) <= tol:
                 return fail("chi_%d%d%d%d(%d,%d,%d) on demand = %r, reference %r, |diff| %.3e > tol %.3e" % (i, j, k, l, n1, n2, n3, v, r, abs(v - r), tol),
                             "mismatch-ref", {"triple": [n1, n2, n3]})
@@ -180,6 +187,7 @@ def execute(case, ctx):
     classes.append("empty-freq-list" if case["empty_table"] else "default-compute")
     if os.environ.get("VERIF_CALIBRATE"):
         classes.append("ratio<=1e%d" % (math.ceil(math.log10(maxratio)) if maxratio > 0 else -99))
+        classes.append("cond<=1e%d" % (math.ceil(math.log10(maxcond)) if maxcond > 0 else -99))
     return Result("ok", sorted(set(classes)), nontrivial)
 
 
